@@ -61,7 +61,7 @@ def build(cfg):
             if cfg["mankind"] == "impulsive" or (cfg["mankind"] == "mixed" and i % 2 == 0):
                 mans.append(ImpulsiveMan(d, [0.28, -0.01, 0.123456], frame=fr_, comment=com))
             else:
-                mans.append(ContinuousMan(d, timedelta(seconds=120.25), dv=[1.5, 0.25, -0.75], frame=fr_, comment=com))
+                mans.append(ContinuousMan(d, timedelta(seconds=120.25), dv=[1.5, 0.25, -0.75], frame=fr_, comment=com, date_pos=cfg.get("manpos", "start")))
         if mans:
             sv.maneuvers = mans
         if cfg["nud"]:
